@@ -155,7 +155,14 @@ def run_config(cfg):
                 for lab in e['labels']:
                     order.append(('evo', int(e['app'][3:]), int(lab[1:])))
         batches = res.get('batches')
-        return {'outcome': res['outcome'],
+        # rebuilds of each app's Item table (a rebuild drops the old table)
+        rebuilds = {}
+        for e in res['events']:
+            if e['ev'] == 'stmt':
+                for a in range(1, n + 1):
+                    if (e.get('sql') or '').startswith('DROP TABLE "app%d_item%d"' % (a, a)):
+                        rebuilds[a] = rebuilds.get(a, 0) + 1
+        return {'outcome': res['outcome'], 'rebuilds': rebuilds,
                 'error_type': (res.get('error') or {}).get('type'),
                 'error_msg': ((res.get('error') or {}).get('msg') or '')[:300],
                 'order': order, 'batches': batches,
@@ -190,6 +197,31 @@ def judge(cfg, obs):
         kinds = sorted(set('%s-after-%s' % (x[0], y[0]) for x, y in broken))
         out.append(('requirement-broken', {'broken': broken[:6], 'kinds': kinds}))
     return out, unsat
+
+
+def spread_failures(cfg, obs):
+    """C18 across evolutions and apps: every evolution of the family adds one nullable column to the
+    app's Item table, so all pending evolutions of an app are mergeable: the table is rebuilt ONCE
+    when the app's evolutions are not interleaved with another app's, and never more often than the
+    app has pending evolutions.  Returns list of (class, detail)."""
+    out = []
+    if obs['outcome'] != 'ok':
+        return out
+    n = cfg['napps']
+    evos = [u for u in obs['order'] if u[0] == 'evo']
+    for a in range(1, n + 1):
+        pend = cfg['pending'][a - 1]
+        if pend == 0:
+            continue
+        got = obs['rebuilds'].get(a, 0)
+        idx = [i for i, u in enumerate(evos) if u[1] == a]
+        contiguous = bool(idx) and all(evos[i][1] == a for i in range(idx[0], idx[-1] + 1))
+        if got > pend:
+            out.append(('more-rebuilds-than-one-at-a-time', {'app': a, 'rebuilds': got, 'pending': pend}))
+        elif contiguous and got != 1:
+            out.append(('mergeable-evolutions-rebuilt-more-than-once',
+                        {'app': a, 'rebuilds': got, 'pending': pend}))
+    return out
 
 
 def interleave_configs():
